@@ -13,4 +13,8 @@ env -u RUSTFLAGS cargo build --release --offline --manifest-path /repo/Cargo.tom
 echo "setup done"
 # warm the build caches of checks that compile scratch crates (C32: macro expansion)
 ./check C32 quick >/dev/null 2>&1 || true
+# C09 builds Rust for wasm32 with -Zbuild-std from a patched copy of rust-src (dlmalloc removed);
+# the first build also compiles core/alloc and the guest crate
+./tools/prepare_rust_src.sh
+./check C09 quick >/dev/null 2>&1 || true
 echo "caches warmed"
